@@ -1309,7 +1309,7 @@ pub fn fam_planted_sched(seed: u64, tier: &str, index: u64) -> Scenario {
 /// variables, every clause true under a planted assignment, heavily over-constrained (6-12 clauses
 /// per variable) so that search runs into hundreds of conflicts: 16 variables x 4 values or 20 x 3
 /// with tiny learned-nogood limits (the database is cleaned up every few conflicts while nogoods
-/// asserting equalities - two trail entries - are reasons on the trail), and, rarely, 100-150
+/// asserting equalities - two trail entries - are reasons on the trail), and, rarely, 60-90
 /// variables under the default options (clean-up after 4 000 nogoods). Value selectors that decide
 /// by removing values. The planted assignment refutes `Unsatisfiable` and may not be excluded by
 /// any learned nogood.
@@ -1317,7 +1317,7 @@ pub fn fam_planted_eq(seed: u64, tier: &str, index: u64) -> Scenario {
     let mut g = Gen::new(rng_for(seed, "planted_eq", index), params(tier));
     let (n, k, m, big) = match index % 16 {
         7 => {
-            let n = g.rng.gen_range(100..=150usize);
+            let n = g.rng.gen_range(60..=90usize);
             (n, 2, (n as f64 * 6.4) as usize, true)
         }
         x if x % 2 == 0 => (16usize, 3, g.rng.gen_range(150..=200usize), false),
